@@ -174,7 +174,7 @@ def kernel_vcs(kernel, policy, spec, info, not_decided):
     g = rg[0][2]['vgrad']
     if not isinstance(g, AV) or 'vgrad' not in getattr(wg, 'written', ()):
         raise Unsupported(f'{name}: vgrad does not write its output array')
-    gen = Gen(wv.decls + [d for d in wg.decls if d not in wv.decls], length='n')
+    gen = Gen(wv.decls + [d for d in wg.decls if d not in wv.decls], length='n', tag=name)
     hyps = []
     if getattr(wv, 'extrema', None) or getattr(wg, 'extrema', None):
         hyps = ['(> n 0)']          # precondition of Eigen's maxCoeff: a sample has at least one output value
@@ -226,7 +226,7 @@ def error_vcs(policy, info, not_decided):
     fn = policy_error_fn(policy)
     info.append(fninfo(name, f'nano::loss::detail::{policy}::error', path, fn))
     wp, rets = walk_kernel(name, fn, path)
-    gen = Gen(wp.decls, length='n')
+    gen = Gen(wp.decls, length='n', tag=name)
     src = {'file': path, 'line': fn.get('loc', {}).get('line')}
     vcs = []
     vcs += gen.from_wp(wp, name, path)
@@ -498,7 +498,7 @@ def pinball_vcs(info, not_decided):
                          source={'file': path, 'line': fn.get('loc', {}).get('line')}))
     wv, val, fv = runs['value']
     wg, grd, fg = runs['vgrad']
-    gen = Gen(wv.decls + [d for d in wg.decls if d not in wv.decls], length='n', hyps=dom)
+    gen = Gen(wv.decls + [d for d in wg.decls if d not in wv.decls], length='n', hyps=dom, tag='loss_pinball')
     m = {'|targets@i|': TGT, '|outputs@i|': OUT}
     gen.declare(TGT), gen.declare(OUT)
     value_sum = sx.subst(sx.parse(val.c[0]), m)
